@@ -30,6 +30,77 @@ c02_Requests == { Rq("stop", "w1", TRUE), Rq("kill", "w1", FALSE), [Rq("kill", "
 
 c01a_Configs == { D(3, 0, <<W0("w1", 2, 1, 1)>>) }
 c02a_Configs == { Mixed(D(3, 0, <<W0("w1", 2, 1, 0)>>)) }
+
+\* ---- C03: graceful termination: stop signal, grace period (in polls), children
+Wsch(np, G) == [W0("w1", np, G, 0) EXCEPT !.sch = TRUE]
+Wsch2(nm, np, G) == [W0(nm, np, G, 0) EXCEPT !.sch = TRUE]
+c03_Configs == { Mixed(D(4, 0, <<Wsch(1, G)>>)) : G \in {0, 1, 2} } \cup { Mixed(D(4, 0, <<W0("w1", 1, G, 0)>>)) : G \in {0, 2} }
+                \cup { Mixed(D(4, 0, <<[W0("w1", 1, 1, 0) EXCEPT !.ssig = 2]>>)) }
+c03_Requests == { Rq("stop", "w1", TRUE), [Rq("kill", "w1", FALSE) EXCEPT !.G = 0], [Rq("kill", "w1", TRUE) EXCEPT !.G = 2],
+                  [Rq("kill", "w1", FALSE) EXCEPT !.signum = 3], Rq("decr", "w1", FALSE), Rq("restart", "w1", FALSE),
+                  [Rq("reload", "w1", FALSE) EXCEPT !.sequential = TRUE], [Rq("signal", "w1", FALSE) EXCEPT !.signum = 9] }
+
+\* ---- C04 / C14: hooks, spawn failures, two watchers
+H(h, o, ig) == [h |-> h, o |-> o, ig |-> ig]
+Wh(nm, np, hooks) == [W0(nm, np, 1, 0) EXCEPT !.hooks = hooks]
+GateHookCfgs == { <<H(h, o, ig)>> : h \in {"before_start", "before_spawn", "after_spawn", "after_start"},
+                                    o \in {"false", "raise"}, ig \in BOOLEAN }
+c14_Configs == { Mixed(D(4, 0, <<Wh("w1", 2, hs)>>)) : hs \in GateHookCfgs }
+               \cup { Mixed(D(4, 0, <<Wh("w1", 1, <<H(h, o, FALSE)>>)>>)) :
+                        h \in {"before_stop", "after_stop", "before_signal", "after_signal"}, o \in {"false", "raise"} }
+c14_Requests == { Rq("start", "w1", TRUE), Rq("stop", "w1", TRUE), Rq("restart", "w1", TRUE), Rq("kill", "w1", FALSE),
+                  [Rq("signal", "w1", FALSE) EXCEPT !.signum = 1], [Rq("signal", "w1", FALSE) EXCEPT !.signum = 9] }
+c04_Configs == { D(4, 0, <<W0("w1", 1, 1, 0), W0("w2", 2, 0, 0)>>),
+                 Mixed(D(4, 0, <<Wh("w1", 2, <<H("after_spawn", "false", FALSE)>>)>>)),
+                 D(4, 0, <<Wh("w1", 2, <<H("before_spawn", "false", FALSE)>>), W0("w2", 1, 1, 0)>>) }
+c04_Requests == { Rq("start", "w1", TRUE), Rq("stop", "w1", FALSE), Rq("incr", "w1", FALSE), Rq("decr", "w2", FALSE),
+                  Rq("kill", "w2", FALSE), Rq("stop", "", FALSE), Rq("start", "", FALSE) }
+c04_Faults == { <<>>, <<"OSError">>, <<"OSError", "OSError">>, <<"ok", "OSError", "OSError", "OSError">> }
+
+\* ---- C05 / C10: overlapping requests, stubborn workers
+c05_Configs == { Stubborn(D(3, 0, <<W0("w1", 2, 2, 0)>>)), Mixed(D(3, 0, <<W0("w1", 1, 1, 1)>>)) }
+c05_Requests == { Rq("kill", "w1", FALSE), [Rq("kill", "w1", TRUE) EXCEPT !.G = 2], Rq("stop", "w1", TRUE),
+                  Rq("restart", "w1", TRUE), [Rq("reload", "w1", TRUE) EXCEPT !.sequential = TRUE],
+                  Rq("start", "w1", TRUE), Rq("incr", "w1", FALSE), Rq("status", "w1", FALSE), Rq("quit", "", FALSE) }
+c10_Configs == { D(3, 0, <<W0("w1", 1, 1, 1)>>), D(3, 0, <<Wh("w1", 1, <<H("before_start", "raise", FALSE)>>)>>),
+                 D(3, 0, <<[W0("w1", 1, 1, 0) EXCEPT !.sing = TRUE]>>) }
+c10_Requests == { Rq("start", "w1", TRUE), Rq("stop", "w1", FALSE), Rq("restart", "w1", TRUE), Rq("reload", "w1", FALSE),
+                  Rq("incr", "w1", TRUE), Rq("decr", "w1", FALSE), [Rq("set", "w1", TRUE) EXCEPT !.nb = 2],
+                  Rq("quit", "", FALSE), Rq("stop", "", FALSE), Rq("reload", "", FALSE) }
+
+\* ---- C09: events vs the live set; exit statuses and signals
+c09_Configs == { D(3, 0, <<W0("w1", 2, 1, 0)>>), Mixed(D(3, 0, <<W0("w1", 1, 0, 0)>>)) }
+c09_Requests == { Rq("incr", "w1", FALSE), Rq("decr", "w1", FALSE), [Rq("set", "w1", FALSE) EXCEPT !.nb = 1],
+                  Rq("reload", "w1", FALSE), Rq("kill", "w1", FALSE), Rq("stop", "w1", FALSE), Rq("start", "w1", FALSE) }
+st_all == {0, 256, 65280, 15, 9, 11}
+
+\* ---- C18: confinement of signal / kill requests (two watchers, children)
+c18_Configs == { D(4, 0, <<W0("w1", 2, 1, 0), Wsch2("w2", 1, 1)>>) }
+c18_Requests == { [Rq("signal", "w1", FALSE) EXCEPT !.signum = 1], [Rq("signal", "w1", FALSE) EXCEPT !.signum = 15, !.pid = 1],
+                  [Rq("signal", "w1", FALSE) EXCEPT !.signum = 15, !.pid = 3], [Rq("kill", "w1", FALSE) EXCEPT !.pid = 2],
+                  [Rq("kill", "w1", FALSE) EXCEPT !.pid = 3], Rq("kill", "w2", FALSE),
+                  [Rq("signal", "w2", FALSE) EXCEPT !.signum = 9, !.pid = 1] }
+
+\* ---- C19: priority order and pacing at start
+Wp(nm, np, Wd, prio, auto) == [W0(nm, np, 0, Wd) EXCEPT !.prio = prio, !.auto = auto]
+c19_Configs == { D(8, wg, <<Wp("w1", 1, 0, p1, TRUE), Wp("w2", 2, w2, p2, TRUE), Wp("w3", 1, 0, 0, a3)>>) :
+                   wg \in {0, 1}, p1 \in {0, 1}, p2 \in {0, 1}, w2 \in {0, 2}, a3 \in BOOLEAN }
+c19_Requests == { Rq("restart", "w2", FALSE), Rq("stop", "", TRUE), Rq("start", "", TRUE) }
+
+\* ---- C08: shutdown at every moment
+c08_Configs == { Mixed(D(3, 0, <<W0("w1", 1, 1, 1), W0("w2", 1, 0, 0)>>)) }
+c08_Requests == { Rq("quit", "", TRUE), Rq("quit", "", FALSE), Rq("stop", "w1", FALSE), Rq("restart", "w1", FALSE) }
+
+\* ---- smaller variants for the quick tier
+c02q_Configs == { D(3, 0, <<W0("w1", 2, 2, 0)>>), Stubborn(D(3, 0, <<W0("w1", 2, 1, 0)>>)), Mixed(D(3, 0, <<W0("w1", 1, 0, 0)>>)) }
+c03q_Configs == { Mixed(D(4, 0, <<Wsch(1, 1)>>)), Mixed(D(4, 0, <<W0("w1", 1, 2, 0)>>)), Mixed(D(4, 0, <<W0("w1", 1, 0, 0)>>)) }
+c05q_Requests == { Rq("kill", "w1", FALSE), Rq("stop", "w1", TRUE), [Rq("reload", "w1", TRUE) EXCEPT !.sequential = TRUE],
+                   Rq("start", "w1", TRUE), Rq("status", "w1", FALSE) }
+c05q_Configs == { Stubborn(D(3, 0, <<W0("w1", 2, 2, 0)>>)) }
+c19q_Configs == { D(8, wg, <<Wp("w1", 1, 0, p1, TRUE), Wp("w2", 2, 2, 1, TRUE), Wp("w3", 1, 0, 0, a3)>>) :
+                   wg \in {0, 1}, p1 \in {0, 1}, a3 \in BOOLEAN }
+st_three == {0, 65280, 9}
+
 st_one == {256}
 st_exit == {0, 256, 65280}
 st_sig  == {15, 9, 11}
